@@ -188,6 +188,27 @@ def full_rank_G(draw, kmax=5, nmax=10):
 
 
 @st.composite
+def pivot_G(draw, kmax=4, nmax=24):
+    """Full-rank k x n matrix with PRESCRIBED pivot columns c_1 < ... < c_k of its row echelon form (anywhere in 0..n-1, so also far to the
+    right: columns left of c_1 are zero, columns between pivots depend on earlier pivots only), rows then mixed by an invertible matrix."""
+    k = draw(st.integers(1, kmax))
+    n = draw(st.integers(k + 1, nmax))
+    piv = sorted(draw(st.lists(st.integers(0, n - 1), min_size=k, max_size=k, unique=True)))
+    G = np.zeros((k, n), dtype=np.int64)
+    bits = draw(st.lists(st.integers(0, 1), min_size=k * n, max_size=k * n))
+    for i in range(k):
+        for j in range(piv[i] + 1, n):
+            if j not in piv:
+                G[i, j] = bits[i * n + j]
+        G[i, piv[i]] = 1
+    ops = draw(st.lists(st.tuples(st.integers(0, k - 1), st.integers(0, k - 1)), min_size=0, max_size=3 * k))
+    for i, j in ops:
+        if i != j:
+            G[i] ^= G[j]
+    return G.tolist()
+
+
+@st.composite
 def parity_P(draw, kmax=6, mmax=6):
     k = draw(st.integers(1, kmax))
     m = draw(st.integers(1, mmax))
@@ -228,7 +249,7 @@ def ldpc_H(draw, nmax=12):
 
 def unit_generated(ctx, kind, n, shard, kmax=5, nmax=10):
     def f(x):
-        if kind == "generic":
+        if kind in ("generic", "generic_pivots"):
             G = x
             has_id = all(any(sum(col) == 1 and col[i] == 1 for col in zip(*G)) for i in range(len(G)))
             spec = {"family": "generic", "G": G, "has_identity_cols": has_id}
@@ -240,7 +261,7 @@ def unit_generated(ctx, kind, n, shard, kmax=5, nmax=10):
                 ctx.cls("ldpc_k0_skipped")
                 return
         check_spec(ctx, None, {"spec": spec, "seed": ctx.seed})
-    strat = {"generic": full_rank_G(kmax, nmax), "systematic": parity_P(), "ldpc": ldpc_H()}[kind]
+    strat = {"generic": full_rank_G(kmax, nmax), "generic_pivots": pivot_G(kmax, nmax), "systematic": parity_P(), "ldpc": ldpc_H()}[kind]
     draw_cases(strat, n, ctx.seed * 7919 + shard, f)
 
 
@@ -269,6 +290,9 @@ def units(tier, seed):
     for sh in range(4):
         us.append(Unit(f"gen_generic_small_{sh}", "c01:unit_generated", {"kind": "generic", "n": ng, "shard": sh, "kmax": 3, "nmax": 9}, 5))
         us.append(Unit(f"gen_generic_big_{sh}", "c01:unit_generated", {"kind": "generic", "n": ng, "shard": 10 + sh, "kmax": 8 if T else 5, "nmax": 14 if T else 10}, 8))
+        # long low-rate codes: pivot columns of the elimination spread far to the right
+        us.append(Unit(f"gen_generic_lowrate_{sh}", "c01:unit_generated", {"kind": "generic_pivots", "n": ng, "shard": 40 + sh, "kmax": 4, "nmax": 40 if T else 24}, 5))
+        us.append(Unit(f"gen_generic_pivots_{sh}", "c01:unit_generated", {"kind": "generic_pivots", "n": ng, "shard": 50 + sh, "kmax": 8, "nmax": 48}, 8))
         us.append(Unit(f"gen_systematic_{sh}", "c01:unit_generated", {"kind": "systematic", "n": ng, "shard": 20 + sh}, 5))
         us.append(Unit(f"gen_ldpc_{sh}", "c01:unit_generated", {"kind": "ldpc", "n": ng, "shard": 30 + sh}, 5))
     return us
